@@ -44,10 +44,12 @@ type managed struct {
 
 // PointRec is one scheduling decision of an execution.
 type PointRec struct {
-	Enabled []int  `json:"enabled"` // goroutine ids in canonical order (previously running first)
-	Chosen  int    `json:"chosen"`  // index into Enabled
-	Site    string `json:"site"`
-	Name    string `json:"name"`
+	Enabled []int `json:"enabled"` // goroutine ids in canonical order (previously running first)
+	// EnabledNames: the names of the enabled goroutines, in the same order (used to validate the replay of a prefix)
+	EnabledNames []string `json:"-"`
+	Chosen       int      `json:"chosen"` // index into Enabled
+	Site         string   `json:"site"`
+	Name         string   `json:"name"`
 	// RunningStillEnabled: choosing index > 0 here preempts a goroutine that could have continued.
 	RunningStillEnabled bool `json:"preempt"`
 }
@@ -57,6 +59,7 @@ type Sched struct {
 	byGoid     map[int64]*managed
 	gs         []*managed
 	prefix     []int
+	expect     [][]string // optional: the enabled goroutines (by name) expected at each decision of the prefix
 	Points     []PointRec
 	Trace      []string
 	last       int // id of the goroutine released last
@@ -359,8 +362,23 @@ func (s *Sched) Run() {
 				return
 			}
 		}
+		names := make([]string, len(enabled))
+		for i, id := range enabled {
+			names[i] = s.gs[id].name
+		}
+		if k < len(s.prefix) && k < len(s.expect) {
+			same := len(names) == len(s.expect[k])
+			for i := 0; same && i < len(names); i++ {
+				same = names[i] == s.expect[k][i]
+			}
+			if !same {
+				s.Diverged = fmt.Sprintf("replay diverged at decision %d: enabled %v, expected %v", k, names, s.expect[k])
+				s.mu.Unlock()
+				return
+			}
+		}
 		g := s.gs[enabled[choice]]
-		s.Points = append(s.Points, PointRec{Enabled: enabled, Chosen: choice, Site: g.site + ":" + g.kind, Name: g.name, RunningStillEnabled: stillEnabled && len(s.Points) > 0})
+		s.Points = append(s.Points, PointRec{Enabled: enabled, EnabledNames: names, Chosen: choice, Site: g.site + ":" + g.kind, Name: g.name, RunningStillEnabled: stillEnabled && len(s.Points) > 0})
 		s.Trace = append(s.Trace, fmt.Sprintf("%s %s(%s)", g.name, g.kind, g.site))
 		g.state = gRunning
 		s.last = g.id
@@ -442,6 +460,36 @@ type Execution struct {
 // choice 0. body builds fresh objects, spawns managed goroutines with s.Spawn, calls s.Run(), and returns
 // an oracle verdict (signature, detail) - empty if the property held - plus an outcome label.
 func RunSchedule(t *testing.T, prefix []int, maxSteps int, body func(s *Sched) (sig, detail, outcome string)) (ex Execution) {
+	return RunScheduleExpect(t, prefix, nil, maxSteps, body)
+}
+
+// replayAttempts: an execution whose replayed prefix does not meet the expected enabled sets (the code under test
+// iterates over a Go map, whose order the scheduler does not control) is attempted again this many times before it
+// is counted as a divergence.
+const replayAttempts = 8
+
+func runValidated(t *testing.T, prefix []int, expect [][]string, maxSteps int, body func(s *Sched) (sig, detail, outcome string)) (ex Execution) {
+	for attempt := 0; attempt < replayAttempts; attempt++ {
+		ex = RunScheduleExpect(t, prefix, expect, maxSteps, body)
+		if ex.Diverged == "" {
+			return ex
+		}
+	}
+	return ex
+}
+
+// expectFor: the enabled sets of the first n decisions of ex.
+func expectFor(ex Execution, n int) [][]string {
+	out := make([][]string, 0, n)
+	for i := 0; i < n && i < len(ex.Points); i++ {
+		out = append(out, ex.Points[i].EnabledNames)
+	}
+	return out
+}
+
+// RunScheduleExpect is RunSchedule with a validation of the prefix: at decision k of the prefix the enabled
+// goroutines must be expect[k] (by name, in canonical order); a mismatch is reported as a divergence.
+func RunScheduleExpect(t *testing.T, prefix []int, expect [][]string, maxSteps int, body func(s *Sched) (sig, detail, outcome string)) (ex Execution) {
 	done := make(chan struct{})
 	go func() {
 		defer close(done)
@@ -451,7 +499,7 @@ func RunSchedule(t *testing.T, prefix []int, maxSteps int, body func(s *Sched) (
 			}
 		}()
 		synctest.Test(t, func(t *testing.T) {
-			s := &Sched{byGoid: map[int64]*managed{}, prefix: prefix, maxSteps: maxSteps, children: map[string]int{}, holders: map[any]string{}, last: -1}
+			s := &Sched{byGoid: map[int64]*managed{}, prefix: prefix, expect: expect, maxSteps: maxSteps, children: map[string]int{}, holders: map[any]string{}, last: -1}
 			schedMu.Lock()
 			activeSched = s
 			schedMu.Unlock()
@@ -487,13 +535,13 @@ type ExploreStats struct {
 func Explore(t *testing.T, bound int, maxSteps int, deadline time.Time, body func(s *Sched) (sig, detail, outcome string), onViolation func(ex Execution, choices []int)) ExploreStats {
 	st := ExploreStats{Outcomes: map[string]int64{}, Exhaustive: true}
 	violations := 0
-	var explore func(prefix []int, b int)
-	explore = func(prefix []int, b int) {
+	var explore func(prefix []int, expect [][]string, b int)
+	explore = func(prefix []int, expect [][]string, b int) {
 		if time.Now().After(deadline) {
 			st.Exhaustive = false
 			return
 		}
-		ex := RunSchedule(t, prefix, maxSteps, body)
+		ex := runValidated(t, prefix, expect, maxSteps, body)
 		st.Executions++
 		if len(ex.Points) > st.MaxPoints {
 			st.MaxPoints = len(ex.Points)
@@ -534,7 +582,7 @@ func Explore(t *testing.T, bound int, maxSteps int, deadline time.Time, body fun
 				if cost <= b {
 					for alt := 1; alt < len(p.Enabled); alt++ {
 						np := append(append([]int(nil), choices[:i]...), alt)
-						explore(np, b)
+						explore(np, expectFor(ex, i+1), b)
 					}
 				}
 			}
@@ -543,7 +591,7 @@ func Explore(t *testing.T, bound int, maxSteps int, deadline time.Time, body fun
 			}
 		}
 	}
-	explore(nil, bound)
+	explore(nil, nil, bound)
 	st.BoundCompleted = bound
 	return st
 }
@@ -574,20 +622,21 @@ type ShardViolation struct {
 }
 
 type ShardResult struct {
-	Stats      ExploreStats     `json:"stats"`
-	Violations []ShardViolation `json:"viol"`
+	Stats        ExploreStats     `json:"stats"`
+	Violations   []ShardViolation `json:"viol"`
+	Unreproduced []string         `json:"unreproduced,omitempty"`
 }
 
 // exploreFrom is Explore restricted to the subtree below prefix.
 func exploreFrom(t *testing.T, prefix []int, bound int, maxSteps int, deadline time.Time, body func(s *Sched) (sig, detail, outcome string), onViolation func(ex Execution, choices []int)) ExploreStats {
 	st := ExploreStats{Outcomes: map[string]int64{}, Exhaustive: true}
-	var explore func(prefix []int)
-	explore = func(prefix []int) {
+	var explore func(prefix []int, expect [][]string)
+	explore = func(prefix []int, expect [][]string) {
 		if time.Now().After(deadline) {
 			st.Exhaustive = false
 			return
 		}
-		ex := RunSchedule(t, prefix, maxSteps, body)
+		ex := runValidated(t, prefix, expect, maxSteps, body)
 		st.Executions++
 		st.Decisions += int64(len(ex.Points))
 		if len(ex.Points) > st.MaxPoints {
@@ -626,7 +675,7 @@ func exploreFrom(t *testing.T, prefix []int, bound int, maxSteps int, deadline t
 				}
 				if cost <= bound {
 					for alt := 1; alt < len(p.Enabled); alt++ {
-						explore(append(append([]int(nil), choices[:i]...), alt))
+						explore(append(append([]int(nil), choices[:i]...), alt), expectFor(ex, i+1))
 					}
 				}
 			}
@@ -635,7 +684,7 @@ func exploreFrom(t *testing.T, prefix []int, bound int, maxSteps int, deadline t
 			}
 		}
 	}
-	explore(prefix)
+	explore(prefix, nil)
 	st.BoundCompleted = bound
 	return st
 }
@@ -656,9 +705,11 @@ func ServeShards(t *testing.T, scenarios map[string]func(s *Sched) (string, stri
 			if perSig[ex.Signature] > 2 {
 				return
 			}
-			again := RunSchedule(t, choices, job.MaxSteps, body)
+			again := runValidated(t, choices, expectFor(ex, len(ex.Points)), job.MaxSteps, body)
 			if again.Signature != ex.Signature {
-				return // not reproducible: never reported
+				// not reproducible on the same schedule: never reported as a violation, but coverage is not called complete
+				out.Unreproduced = append(out.Unreproduced, ex.Signature)
+				return
 			}
 			out.Violations = append(out.Violations, ShardViolation{ex.Signature, ex.Violation, choices, ex.Trace})
 		})
@@ -730,6 +781,10 @@ func ExploreSharded(t *testing.T, pool *Pool, scenario string, bound, maxSteps i
 			total.Outcomes[o] += c
 		}
 		total.HarnessErrors = append(total.HarnessErrors, sr.Stats.HarnessErrors...)
+		for _, u := range sr.Unreproduced {
+			total.HarnessErrors = append(total.HarnessErrors, "a violating schedule did not reproduce (not reported): "+u)
+			total.Exhaustive = false
+		}
 		viol = append(viol, sr.Violations...)
 	}
 	return total, viol
